@@ -1,5 +1,5 @@
 import Driver.Common
-import OidcModel.Spec.C07
+import OidcModel.Spec.FlowObs
 open Kv Drv
 
 namespace Drv.Flow
@@ -17,12 +17,8 @@ def parseClient (l : Line) (p : String) : OPClient :=
 def parseClients (l : Line) : List OPClient :=
   (List.range (nat l "cl.n")).map fun i => parseClient l ("cl." ++ toString i ++ ".")
 
-/-- observer state of the flow monitors (built from OBSERVED responses only) -/
-structure MonSt where
-  m04 : C04.MonState := {}
-  m07 : C07.MonState := {}
-  reqs : List AuthReq := []         -- authorization requests the provider accepted, with what the observer knows
-  deriving Inhabited
+/-- observer state of the flow monitors (built from OBSERVED responses only): Spec/FlowObs.lean -/
+abbrev MonSt := FlowObs.ObsState
 
 def presented (l : Line) : C04.Presented :=
   { clientID := str l "cid", secret := str l "secret",
@@ -31,58 +27,63 @@ def presented (l : Line) : C04.Presented :=
 
 def journalHas (l : Line) (pfx : String) : Bool := (list l "journal").any (fun j => j.startsWith pfx)
 
-/-- one observed line: returns new monitor state and verdicts (C04 clause, C07 clause) -/
+/-- the refresh-token record the storage created while serving the request (`pfx` = "o.rt": delivered with the
+    response; "o.minted": the request failed after the storage had created it) -/
+def mintedRT (l : Line) (tokKey : String) : C07.RT :=
+  { token := str l tokKey, client := str l "o.rtclient", subject := str l "o.rtsub", scopes := list l "o.rtscopes",
+    audience := list l "o.rtaud", authTime := int l "o.rtauthtime" }
+
+/-- the event an observed line stands for (none: nothing the monitors look at) -/
+def parseEvent (l : Line) : Option FlowObs.Event :=
+  match str l "op" with
+  | "authorize" =>
+    if str l "obs" == "login" then
+      let ch : Option CodeChallenge := if has l "chal.m" then some { Challenge := str l "chal.c", Method := str l "chal.m" } else none
+      some (.accepted { id := str l "o.id", clientID := str l "client", redirectURI := str l "redirect", scopes := list l "scopes",
+                        nonce := str l "nonce", state := str l "state", challenge := ch })
+    else none
+  | "login" => some (.login (str l "id") (str l "sub") (int l "authtime"))
+  | "callback" => if str l "obs" == "code" then some (.code (str l "id") (str l "o.code")) else none
+  | "exchange" =>
+    let obs : Option C04.Tokens := if str l "obs" == "ok" then
+      some { subject := str l "o.sub", client := str l "o.client", scopes := list l "o.scopes", nonce := str l "o.nonce" } else none
+    let minted : Option C07.RT :=
+      if str l "obs" == "ok" && has l "o.rt" then some (mintedRT l "o.rt")
+      else if str l "obs" != "ok" && has l "o.minted" then some (mintedRT l "o.minted") else none
+    some (.exchange (presented l) obs minted)
+  | "refresh" =>
+    let obs : Option C07.Result := if str l "obs" == "ok" then
+      some { newRT := str l "o.rt", scopes := list l "o.rtscopes", client := str l "o.rtclient", subject := str l "o.rtsub",
+             audience := list l "o.rtaud", authTime := int l "o.rtauthtime",
+             handedOver := (list l "journal").any (fun j => j.startsWith "CreateAccessAndRefreshTokens(refresh," && j.endsWith ("," ++ str l "rt" ++ ")")) } else none
+    some (.refresh (presented l) (str l "rt") (list l "scopes") obs (str l "o.err") (journalHas l "CreateAccess"))
+  | _ => none
+
+/-- one observed line: returns new monitor state and verdicts (C04 clause, C07 clause).  The request was served at
+    some instant between `now0` and `now1`: a clause counts only when it fails at both (the state update does not
+    depend on the instant). -/
 def monStep (ms : MonSt) (l : Line) : MonSt × Option String × Option String :=
   match str l "op" with
   | "reset" =>
     let base : C04.MonState := { issuer := str l "issuer", clients := parseClients l, jwtMaxAgeIAT := 3600 * Go.second, jwtOffset := Go.second }
     ({ m04 := base, m07 := { base := base, refreshEnabled := bool l "refresh" }, reqs := [] }, none, none)
-  | "authorize" =>
-    if str l "obs" == "login" then
-      let ch : Option CodeChallenge := if has l "chal.m" then some { Challenge := str l "chal.c", Method := str l "chal.m" } else none
-      let a : AuthReq := { id := str l "o.id", clientID := str l "client", redirectURI := str l "redirect", scopes := list l "scopes",
-                           nonce := str l "nonce", state := str l "state", challenge := ch }
-      ({ ms with reqs := ms.reqs ++ [a] }, none, none)
-    else (ms, none, none)
-  | "login" =>
-    ({ ms with reqs := ms.reqs.map fun a => if a.id == str l "id" then { a with done := true, subject := str l "sub", authTime := int l "authtime" } else a }, none, none)
-  | "callback" =>
-    if str l "obs" == "code" then
-      match ms.reqs.find? (·.id == str l "id") with
-      | some a => ({ ms with m04 := C04.onCallback ms.m04 (str l "o.code") a }, if a.done then none else some "code-for-uncompleted-request", none)
-      | none => (ms, some "code-for-unknown-request", none)
-    else (ms, none, none)
-  | "exchange" =>
-    if str l "obs" == "panic" then (ms, some "panic", none) else
-    let p := presented l
-    let obs : Option C04.Tokens := if str l "obs" == "ok" then
-      some { subject := str l "o.sub", client := str l "o.client", scopes := list l "o.scopes", nonce := str l "o.nonce" } else none
-    let v0 := C04.judge ms.m04 (int l "now0") p obs
-    let v1 := C04.judge ms.m04 (int l "now1") p obs
-    let v := if v0.isSome && v1.isSome then v0 else none
-    let m04 := C04.onExchange ms.m04 p obs
-    -- id_token must agree with the access token about the subject and name the client
-    let v := match v, obs with
-      | none, some tk => if has l "o.idsub" && (str l "o.idsub" != tk.subject || str l "o.azp" != tk.client) then some "tokens:id_token-mismatch" else none
-      | x, _ => x
-    let m07 := if str l "obs" == "ok" && has l "o.rt" then
-        C07.onIssue ms.m07 { token := str l "o.rt", client := str l "o.rtclient", subject := str l "o.rtsub", scopes := list l "o.rtscopes",
-                              audience := list l "o.rtaud", authTime := int l "o.rtauthtime" }
-      else ms.m07
-    ({ ms with m04 := m04, m07 := m07 }, v, none)
-  | "refresh" =>
-    if str l "obs" == "panic" then (ms, none, some "panic") else
-    let p := presented l
-    let obs : Option C07.Result := if str l "obs" == "ok" then
-      some { newRT := str l "o.rt", scopes := list l "o.rtscopes", client := str l "o.rtclient", subject := str l "o.rtsub",
-             audience := list l "o.rtaud", authTime := int l "o.rtauthtime",
-             handedOver := (list l "journal").any (fun j => j.startsWith "CreateAccessAndRefreshTokens(refresh," && j.endsWith ("," ++ str l "rt" ++ ")")) } else none
-    let created := journalHas l "CreateAccess"
-    let v0 := C07.judge ms.m07 (int l "now0") p (str l "rt") (list l "scopes") obs (str l "o.err") created
-    let v1 := C07.judge ms.m07 (int l "now1") p (str l "rt") (list l "scopes") obs (str l "o.err") created
-    let v := if v0.isSome && v1.isSome then v0 else none
-    ({ ms with m07 := C07.onRefresh ms.m07 (str l "rt") obs }, none, v)
-  | _ => (ms, none, none)
+  | op =>
+    if (op == "exchange" || op == "refresh") && str l "obs" == "panic" then
+      (ms, if op == "exchange" then some "panic" else none, if op == "refresh" then some "panic" else none)
+    else
+    match parseEvent l with
+    | none => (ms, none, none)
+    | some e =>
+      let (ms', a0, b0) := FlowObs.observe (int l "now0") ms e
+      let (_, a1, b1) := FlowObs.observe (int l "now1") ms e
+      let v04 := if a0.isSome && a1.isSome then a0 else none
+      let v07 := if b0.isSome && b1.isSome then b0 else none
+      -- id_token must agree with the access token about the subject and name the client
+      let v04 := match v04, e with
+        | none, .exchange _ (some tk) _ =>
+          if has l "o.idsub" && (str l "o.idsub" != tk.subject || str l "o.azp" != tk.client) then some "tokens:id_token-mismatch" else none
+        | x, _ => x
+      (ms', v04, v07)
 
 def obsString (l : Line) : String :=
   match str l "obs" with
